@@ -41,7 +41,7 @@ func c17Program(r *rng.R, fuzz bool) (string, []c17Route) {
 	}
 	b.WriteString("// Package api is a generated annotated program.\n//\n// The API of the check.\n//\n")
 	hostile()
-	b.WriteString("//\tSchemes: http, https\n//\tHost: localhost\n//\tBasePath: /v1\n//\tVersion: 1.0.0\n//\n//\tConsumes:\n//\t- application/json\n//\n//\tProduces:\n//\t- application/json\n//\n")
+	b.WriteString("//\tSchemes: " + r.Pick([]string{"http, https", "http,https", "https,  http", "http"}) + "\n//\tHost: localhost\n//\tBasePath: /v1\n//\tVersion: 1.0.0\n//\n//\tConsumes:\n//\t- application/json\n//\n//\tProduces:\n//\t- application/json\n//\n")
 	hostile()
 	b.WriteString("// swagger:meta\npackage api\n\n")
 	// models
